@@ -94,6 +94,38 @@ fn do_cmp(ctx: &mut Ctx, a: &GameVersion, b: &GameVersion) {
     }
 }
 
+/// one 8-byte wire form through the IS_VER reader and writer
+fn wire_case(ctx: &mut Ctx, text: &str, compressed: bool) {
+    use crate::pkt::{real_decode, real_encode, Dec};
+    let op = format!("gv.wire {} {}", if compressed { "c" } else { "u" }, if text.is_empty() { "-".to_string() } else { hex(text.as_bytes()) });
+    ctx.oracle_eval("wire");
+    let mut f = vec![if compressed { 5u8 } else { 20 }, 2, 1, 0];
+    let mut v = text.as_bytes().to_vec(); v.resize(8, 0);
+    f.extend_from_slice(&v);
+    f.extend_from_slice(b"S3\0\0\0\0");
+    f.extend_from_slice(&[9, 0]);
+    let parsed = { let t = text.to_string(); guard(move || GameVersion::from_str(&t).ok()) };
+    match (parsed, real_decode(compressed, &f)) {
+        (Some(Some(want)), Dec::Pkt(insim::Packet::Ver(ver), _)) => {
+            if ver.version != want || ver.version.cmp(&want) != std::cmp::Ordering::Equal {
+                ctx.violation("c16/wire/read", "the 8-byte wire field does not decode to the version its text parses to", &op, &format!("{}", want), &format!("{}", ver.version));
+            }
+            // written back: the printed form, cut to the field, NUL-padded
+            let printed = format!("{}", ver.version);
+            let mut expect = printed.as_bytes().to_vec(); expect.truncate(8); expect.resize(8, 0);
+            match real_encode(compressed, &insim::Packet::Ver(ver)) {
+                Some(Ok(e)) if e.len() == 20 && e[4..12] == expect[..] => {},
+                Some(Ok(e)) => ctx.violation("c16/wire/write", "the 8-byte wire field written for a version is not its printed form cut to 8 bytes and NUL-padded", &op, &hex(&expect), &hex(&e[4.min(e.len())..12.min(e.len())])),
+                other => ctx.violation("c16/wire/write", "an IS_VER decoded from the wire cannot be written", &op, &hex(&expect), &format!("{:?}", other.map(|r| r.is_ok()))),
+            }
+        },
+        (Some(None), Dec::Pkt(insim::Packet::Ver(ver), _)) => ctx.violation("c16/wire/read", "a text that does not parse as a version is accepted on the wire", &op, "a decode error", &format!("{}", ver.version)),
+        (Some(Some(want)), Dec::ErrDecode(_)) => ctx.violation("c16/wire/read", "a text that parses as a version is rejected on the wire", &op, &format!("{}", want), "decode error"),
+        (None, _) | (_, Dec::Panic) => ctx.violation("c16/wire/panic", "parsing the wire text panicked", &op, "value or error", "panic"),
+        _ => {},
+    }
+}
+
 pub fn run(ctx: &mut Ctx) {
     let mut pool: Vec<GameVersion> = vec![];
     if let Some(lines) = ctx.replay.clone() {
@@ -101,6 +133,7 @@ pub fn run(ctx: &mut Ctx) {
             let w: Vec<&str> = l.split_whitespace().collect();
             match w.as_slice() {
                 ["gv.parse", t] => do_parse(ctx, &from_tokens(t), &mut pool),
+                ["gv.wire", m, h] => wire_case(ctx, &String::from_utf8_lossy(&if *h == "-" { vec![] } else { unhex(h) }), *m == "c"),
                 ["gv.cmp", a1, a2, a3, b1, b2, b3] => {
                     let mk = |x: &str, y: &str, z: &str| GameVersion { major: f32::from_bits(x.parse().unwrap()), minor: char::from_u32(y.parse().unwrap()).unwrap(), patch: if z == "-" { None } else { Some(z.parse().unwrap()) } };
                     do_cmp(ctx, &mk(a1, a2, a3), &mk(b1, b2, b3));
@@ -137,6 +170,22 @@ pub fn run(ctx: &mut Ctx) {
                 if s.len() <= 8 { do_parse(ctx, &s, &mut pool); }
             }
         }
+    }
+    // every ASCII letter in both cases, and the characters just outside the two ranges
+    for c in ('@'..='[').chain('`'..='{') {
+        for t in [format!("0.7{}", c), format!("0.7{}12", c), format!("{}", c), format!("1{}0", c)] { do_parse(ctx, &t, &mut pool); }
+    }
+    // the 8-byte wire field: an IS_VER frame carrying the text decodes to the version the text parses to, and written back
+    // it carries the version's printed form (cut to 8 bytes, NUL-padded) — which parses to an equal version when it fits
+    {
+        let mut texts: Vec<String> = vec![];
+        for maj in ["0.1", "0.6", "0.7", "0.04", "1", "12.5", "0.125", "7"] {
+            for letter in ['A', 'E', 'k', 'Z', 'z'] {
+                for rev in ["", "1", "9", "12", "123", "1234", "12345"] { let t = format!("{}{}{}", maj, letter, rev); if t.len() <= 8 { texts.push(t); } }
+            }
+        }
+        for t in ["0.7", "1", "12345678", "0.000001", ""] { texts.push(t.to_string()); }
+        for t in texts { for compressed in [true, false] { wire_case(ctx, &t, compressed); } }
     }
     // random unicode / longer strings
     let n = if ctx.quick() { 3000 } else { 300_000 };
